@@ -26,7 +26,7 @@ tvars == <<tid, l, bad, vars>>
 R == Batch[tid]
 O == R.obs
 CfgOf(r) == [api |-> r.cfg.api, expect |-> r.cfg.expect, sys |-> r.cfg.sys, usr |-> r.cfg.usr,
-             policy |-> r.cfg.policy, port |-> r.cfg.port, server |-> Range(r.cfg.server)]
+             policy |-> r.cfg.policy, port |-> r.cfg.port, server |-> Range(r.cfg.server), gss |-> r.cfg.gss]
 TInit == /\ tid \in 1..Len(Batch) /\ l = 1 /\ bad = {}
          /\ cfg = CfgOf(R)
          /\ phase = "new" /\ active = FALSE /\ kexDone = FALSE /\ sigVerified = FALSE /\ outEnc = FALSE
@@ -46,7 +46,8 @@ GateBad ==
      \cup If(refuse /\ ~O.secret /\ O.authmsgs > 0, "C_auth_traffic_to_server_that_must_be_refused")
      \cup If(O.asked /\ ~O.secretatpolicy /\ O.atpolicy > 0, "C_auth_traffic_before_policy_decided")
      \cup If(k # Shown(c) /\ ~R.badsig, "C_presented_key_differs_from_model")
-     \cup If(accepts = O.raised, "C_decision_differs_from_model")
+     \* ("gssfirst": whether the ordinary credentials follow depends on the GSS-API library at hand - no expectation)
+     \cup If(~(c.api = "sshclient" /\ GssAuth(c) /\ accepts) /\ dec # "gssfirst" /\ accepts = O.raised, "C_decision_differs_from_model")
      \cup If((dec = "policy") # O.asked, "C_policy_consultation_differs_from_model")
 LifeBad ==
   \* GuardPasses is evaluated in the spec state bound from the lifecycle point (primed: the state after this step)
